@@ -189,14 +189,24 @@ struct Drain {
 		std::shared_ptr<std::vector<uint8_t>> in;
 		std::unique_ptr<HuffLZ> z;
 		uint64_t n = 0;
+		uint64_t tail = 0;   // the last three operations and what they returned (part of the fallback key only)
 	};
 	Ctx& ctx; std::shared_ptr<std::vector<uint8_t>> input; const std::vector<uint8_t>& expected; std::vector<int> sizes; std::string name;
 
 	std::unique_ptr<State> fresh() { auto s = std::make_unique<State>(); s->in = input; s->z = std::make_unique<HuffLZ>(BitStreamReader(input->data(), input->size())); return s; }
-	std::unique_ptr<State> clone(const State& s) { auto c = std::make_unique<State>(); c->in = s.in; c->z = std::make_unique<HuffLZ>(*s.z); c->n = s.n; return c; }
-	std::string key(const State& s)
+	std::unique_ptr<State> clone(const State& s) { auto c = std::make_unique<State>(); c->in = s.in; c->z = std::make_unique<HuffLZ>(*s.z); c->n = s.n; c->tail = s.tail; return c; }
+	// Full decoder state (window, indices, bit reader, tree arrays) through the private members, if they still exist under
+	// these names. Otherwise the key is (bytes delivered, last two operations and their results): coarser - states that
+	// differ only in how far the decoder ran ahead are merged, which can only lose exploration - and counted in the evidence.
+	template <class Z, class = void> struct HasDecoderState : std::false_type {};
+	template <class Z> struct HasDecoderState<Z, std::void_t<decltype(std::declval<Z&>().m_DecompressBuffer), decltype(std::declval<Z&>().m_BuffWriteIndex), decltype(std::declval<Z&>().m_BuffReadIndex), decltype(std::declval<Z&>().m_EOS),
+		decltype(std::declval<Z&>().m_BitStreamReader.m_ReadBitIndex), decltype(std::declval<Z&>().m_BitStreamReader.m_ReadBuff),
+		decltype(std::declval<Z&>().m_AdaptiveHuffmanTree.linkOrData.data()), decltype(std::declval<Z&>().m_AdaptiveHuffmanTree.subtreeCount.data()), decltype(std::declval<Z&>().m_AdaptiveHuffmanTree.parentIndex.data())>> : std::true_type {};
+	bool usedFallbackKey = false;
+
+	template <class Z>
+	std::string keyOf(Z& z, const State& s)
 	{
-		HuffLZ& z = *s.z;
 		uint64_t h1 = 0x9E3779B97F4A7C15ull, h2 = 0xC2B2AE3D27D4EB4Full;
 		auto mix = [&](const void* p, std::size_t n) {
 			const unsigned char* b = static_cast<const unsigned char*>(p);
@@ -204,13 +214,29 @@ struct Drain {
 			for (; i + 8 <= n; i += 8) { uint64_t w; std::memcpy(&w, b + i, 8); h1 = (h1 ^ w) * 0x100000001B3ull; h1 ^= h1 >> 29; h2 = (h2 + w) * 0xFF51AFD7ED558CCDull; h2 ^= h2 >> 32; }
 			for (; i < n; ++i) { h1 = (h1 ^ b[i]) * 0x100000001B3ull; h2 = (h2 + b[i]) * 0xFF51AFD7ED558CCDull; h2 ^= h2 >> 31; }
 		};
-		mix(z.m_DecompressBuffer, 4096);
-		uint64_t scal[6] = { z.m_BuffWriteIndex, z.m_BuffReadIndex, z.m_EOS, z.m_BitStreamReader.m_ReadBitIndex, z.m_BitStreamReader.m_ReadBuff, s.n };
-		mix(scal, sizeof scal);
-		auto& t = z.m_AdaptiveHuffmanTree;
-		mix(t.linkOrData.data(), t.linkOrData.size() * 2); mix(t.subtreeCount.data(), t.subtreeCount.size() * 2); mix(t.parentIndex.data(), t.parentIndex.size() * 2);
+		if constexpr (HasDecoderState<Z>::value) {
+			mix(z.m_DecompressBuffer, sizeof z.m_DecompressBuffer);
+			uint64_t scal[6] = { uint64_t(z.m_BuffWriteIndex), uint64_t(z.m_BuffReadIndex), uint64_t(z.m_EOS), uint64_t(z.m_BitStreamReader.m_ReadBitIndex), uint64_t(z.m_BitStreamReader.m_ReadBuff), s.n };
+			mix(scal, sizeof scal);
+			auto& t = z.m_AdaptiveHuffmanTree;
+			mix(t.linkOrData.data(), t.linkOrData.size() * sizeof(t.linkOrData[0])); mix(t.subtreeCount.data(), t.subtreeCount.size() * sizeof(t.subtreeCount[0])); mix(t.parentIndex.data(), t.parentIndex.size() * sizeof(t.parentIndex[0]));
+		}
+		else {
+			usedFallbackKey = true;
+			uint64_t scal[2] = { s.n, s.tail & ((uint64_t(1) << 42) - 1) };   // last two operations
+			mix(scal, sizeof scal);
+		}
 		std::string k(16, '\0'); std::memcpy(&k[0], &h1, 8); std::memcpy(&k[8], &h2, 8);
 		return k;
+	}
+	std::string key(const State& s) { return keyOf(*s.z, s); }
+
+	// the window of the decoder, if it can be located: GetInternalBuffer must point into it
+	template <class Z>
+	static bool ringOf(Z& z, const char*& begin, std::size_t& size)
+	{
+		if constexpr (HasDecoderState<Z>::value) { begin = z.m_DecompressBuffer; size = sizeof z.m_DecompressBuffer; return true; }
+		else return false;
 	}
 	std::string show(const Op& o) { return o.k < 0 ? std::string("GetInternalBuffer") : "GetData(" + std::to_string(o.k) + ")"; }
 	std::vector<Op> enabled(const State&) { std::vector<Op> v; for (int k : sizes) v.push_back({ k }); return v; }
@@ -229,18 +255,20 @@ struct Drain {
 			if (m == 0 && op.k > 0 && s.n != total) return bad("GetData-returns-0-before-the-end", "total=" + std::to_string(total));
 			if (check) { if (m < std::size_t(op.k) && s.n + m < total) ctx.count("drain/short-return-before-end"); ctx.count(m == 0 ? "drain/zero-returns" : "drain/data-returns"); }
 			s.n += m;
+			s.tail = (s.tail << 21) ^ (uint64_t(op.k + 2) << 13) ^ uint64_t(m & 0x1FFF);
 		}
 		else {
 			std::size_t m = 0; const char* p = nullptr;
 			auto o = mc::guarded([&] { p = s.z->GetInternalBuffer(&m); });
 			if (o.cls != 'R') return bad("GetInternalBuffer-throws", o.what);
 			if (s.n + m > total) return bad("delivers-beyond-reference-output", "internal buffer m=" + std::to_string(m));
-			const char* ring = s.z->m_DecompressBuffer;
-			if (m && (p < ring || p + m > ring + 4096)) return bad("internal-buffer-range-outside-window", "");
+			const char* ring = nullptr; std::size_t ringSize = 0;
+			if (ringOf(*s.z, ring, ringSize) && m && (p < ring || p + m > ring + ringSize)) return bad("internal-buffer-range-outside-window", "");
 			if (m && std::memcmp(p, &expected[s.n], m) != 0) return bad("GetInternalBuffer-bytes", "m=" + std::to_string(m));
 			if (m == 0 && s.n != total) return bad("GetInternalBuffer-reports-0-before-the-end", "total=" + std::to_string(total));
 			if (check) ctx.count("drain/internal-buffer-calls");
 			s.n += m;
+			s.tail = (s.tail << 21) ^ (uint64_t(1) << 13) ^ uint64_t(m & 0x1FFF);
 		}
 		return true;
 	}
@@ -255,6 +283,7 @@ void drainCase(Ctx& ctx, int which)
 	if (!ctx.thorough && which == 0) sizes = { 0, 1, 2, 61, 62, 63, 100, 4033, 4034, 4035, 4095, 4096, 4097, 5000, -1 };
 	Drain h{ ctx, input, exp.out, sizes, "stream" + std::to_string(which) };
 	auto r = mc::bfs(h, ctx, 4000000, 100000000, "drain-stream" + std::to_string(which));
+	if (h.usedFallbackKey) ctx.count("binding/fallback-keys");
 	ctx.trace(r.transitions);
 	ctx.outcome(mc::fnv(exp.out.data(), exp.out.size()) ^ r.states);
 	ctx.count(("drain/states-stream" + std::to_string(which)).c_str(), r.states);
